@@ -31,6 +31,7 @@ From GoBT Require Import lib.Bytes lib.VarInt lib.Sha256 lib.Ripemd160 model.Tx 
   model.SigHashWire model.TxMutate model.ScriptNum model.Interp model.CheckSig proofs.SigHashProofs proofs.CommitProofs
   proofs.CommitModelProofs proofs.P2PKHProofs proofs.SignedCoverageProofs proofs.AuditAC04 proofs.AuditACommit
   proofs.AuditASigHash model.Push model.Classify model.Sign proofs.SignProofs.
+From GoBT Require model.Inscription proofs.InscriptionProofs proofs.OrdSignProofs proofs.SignAcceptAll.
 Import ListNotations.
 Local Open Scope N_scope. Local Open Scope bool_scope.
 
@@ -589,6 +590,118 @@ Theorem C04_fill_all_inputs_signs_each_input_independently : forall key_of t t',
       nth_error (tx_ins t') j = Some (set_unlock inp u).
 Proof. exact fill_all_inputs_signs_each_input_independently. Qed.
 Print Assumptions C04_fill_all_inputs_signs_each_input_independently.
+
+(** an input whose unlocking script is what unlocker.Simple returns when run on the very transaction [A] it sits
+    in (type 0x41, 0x42, 0x43, 0xc1, 0xc2 or 0xc3 after defaulting) is accepted by the interpreter model run on [A]:
+    [C04_filled_input_accepted] read with "handed in" = "returned".  This is the form in which the acceptance
+    theorem applies to transactions assembled by several FillInput calls (FillAllInputs below; the ordinals flows,
+    C20_*_sign_final_tx).  Residual hypotheses: the spent script pays to the signing key, FORKID in force, flag
+    sanity, script size, push-only envelope body, the oracle hypothesis for the digest of [A] *)
+Theorem C04_self_signed_input_accepted_forkid : forall (orc : sig_oracle) (s : signer) (A : tx) (idx : N) (inp : input)
+    (flags ht : N) (body : bytes) (insc : bool) (bops : list pop),
+  let ht' := default_type ht in
+  let pk := sg_pub s in
+  let lock := p2pkh_lock (hash160 pk) ++ (if insc then inscription_suffix body else []) in
+  let c := mkCtx (normalise_flags flags) true (Z.of_N (tx_lock A)) (Z.of_N (tx_version A)) (Z.of_N (in_seq inp)) false in
+  wf_tx A -> idx + 1 < two32 -> In ht' [0x41; 0x42; 0x43; 0xc1; 0xc2; 0xc3] ->
+  nthN (tx_ins A) idx = Some inp -> in_script inp = Some lock -> signer_ok s ->
+  unlocking_script s A idx ht = SgOk (in_unlock inp) ->
+  has_flag c F_FORKID = true ->
+  (has_flag c F_CLEANSTACK = true -> has_flag c F_BIP16 = true) ->
+  (lenZ lock <= max_script_size c)%Z ->
+  (insc = true -> parse_ops (length body) false body 1 = Some bops /\ is_push_only bops = true /\
+                  Forall (fun p => (lenZ (p_data p) <= max_elem c)%Z) bops) ->
+  (forall h, fst (calc_input_signature_hash A idx ht') = SOk h -> oracle_accepts_signer orc c s h) ->
+  fst (engine_execute (mk_sigops orc (engine_tx A idx (in_unlock inp) lock (in_sats inp)) idx)
+         (mkExecInput (in_unlock inp) lock flags true true (Z.of_N (tx_lock A)) (Z.of_N (tx_version A))
+                      (Z.of_N (in_seq inp)))) = VOk.
+Proof. exact OrdSignProofs.self_signed_input_accepted_forkid. Qed.
+Print Assumptions C04_self_signed_input_accepted_forkid.
+
+(** (4') EVERY input of a FillAllInputs result is accepted: (4) composed with the acceptance theorem.  For every
+    input j of the transaction handed in that spends a P2PKH(-inscription) output paying to the key the getter
+    hands out for it, the interpreter model run on the RESULT t' accepts input j of t' (its previous script,
+    value and sequence number are those handed in); the oracle hypothesis is about the digest of t' *)
+Theorem C04_fill_all_inputs_every_input_accepted : forall (orc : sig_oracle) key_of (t t' : tx) (flags : N),
+  wf_tx t -> N.of_nat (length (tx_ins t)) < two32 ->
+  (forall prev s, key_of prev = Some s -> signer_ok s) ->
+  fill_all_inputs (simple_getter key_of) t = SgOk t' ->
+  forall (j : nat) (inp : input) (s : signer) (body : bytes) (insc : bool) (bops : list pop),
+  let pk := sg_pub s in
+  let lock := p2pkh_lock (hash160 pk) ++ (if insc then inscription_suffix body else []) in
+  let c := mkCtx (normalise_flags flags) true (Z.of_N (tx_lock t')) (Z.of_N (tx_version t')) (Z.of_N (in_seq inp)) false in
+  nth_error (tx_ins t) j = Some inp -> key_of (in_script inp) = Some s -> in_script inp = Some lock ->
+  has_flag c F_FORKID = true ->
+  (has_flag c F_CLEANSTACK = true -> has_flag c F_BIP16 = true) ->
+  (lenZ lock <= max_script_size c)%Z ->
+  (insc = true -> parse_ops (length body) false body 1 = Some bops /\ is_push_only bops = true /\
+                  Forall (fun p => (lenZ (p_data p) <= max_elem c)%Z) bops) ->
+  (forall h, fst (calc_input_signature_hash t' (N.of_nat j) 65) = SOk h -> oracle_accepts_signer orc c s h) ->
+  exists inp', nth_error (tx_ins t') j = Some inp' /\
+    in_script inp' = Some lock /\ in_sats inp' = in_sats inp /\ in_seq inp' = in_seq inp /\
+    fst (engine_execute (mk_sigops orc (engine_tx t' (N.of_nat j) (in_unlock inp') lock (in_sats inp')) (N.of_nat j))
+           (mkExecInput (in_unlock inp') lock flags true true (Z.of_N (tx_lock t')) (Z.of_N (tx_version t'))
+                        (Z.of_N (in_seq inp')))) = VOk.
+Proof. exact SignAcceptAll.fill_all_inputs_every_input_accepted. Qed.
+Print Assumptions C04_fill_all_inputs_every_input_accepted.
+
+(** the inscription case without assuming that FillInput succeeded.
+    ScriptType classifies what Tx.Inscribe appends to a P2PKH prefix (model/Inscription.v [inscribe_script];
+    13 parts, or more with the OP_RETURN tail of EnrichedArgs) as ScriptTypeInscription, so the gate of
+    unlocker.Simple lets it through ([enriched_ok]: every OP_RETURN item shorter than 2^32 bytes) *)
+Theorem C04_inscribe_script_classified : forall h20 ct data enriched s, length h20 = 20%nat ->
+  InscriptionProofs.enriched_ok enriched ->
+  Inscription.inscribe_script (Inscription.p2pkh_script h20) ct data enriched = Some s ->
+  script_type s = Checked.Ok TInscription.
+Proof. exact SignAcceptAll.inscribe_script_classified. Qed.
+Print Assumptions C04_inscribe_script_classified.
+
+(** without the tail it is literally the lock of the acceptance theorem:
+    p2pkh OP_FALSE OP_IF [ord_body ct data] OP_ENDIF, [ord_body] = push "ord", OP_1, push ct, OP_0, push data *)
+Theorem C04_inscribe_script_is_lock : forall pkh ct data s,
+  Inscription.inscribe_script (p2pkh_lock pkh) ct data None = Some s ->
+  s = p2pkh_lock pkh ++ inscription_suffix (SignAcceptAll.ord_body ct data).
+Proof. exact SignAcceptAll.inscribe_script_is_lock. Qed.
+Print Assumptions C04_inscribe_script_is_lock.
+
+(** FillInput SUCCEEDS on an input spending such a script whenever the digest exists and the key signs
+    (the inscription counterpart of [C04_fill_input_p2pkh_succeeds]) *)
+Theorem C04_fill_input_inscription_succeeds : forall s t idx ht inp pkh ct data enriched lock h sig, signer_ok s ->
+  nthN (tx_ins t) idx = Some inp -> length pkh = 20%nat -> InscriptionProofs.enriched_ok enriched ->
+  Inscription.inscribe_script (p2pkh_lock pkh) ct data enriched = Some lock -> in_script inp = Some lock ->
+  fst (calc_input_signature_hash t idx (default_type ht)) = SOk h -> sg_sign s h = Some sig ->
+  fill_input (Some s) t idx ht = SgOk (with_unlock_at t idx (p2pkh_unlock sig (default_type ht) (sg_pub s))).
+Proof. exact SignAcceptAll.fill_input_inscription_succeeds. Qed.
+Print Assumptions C04_fill_input_inscription_succeeds.
+
+(** and the two together: an input spending what Inscribe built for the signing key's hash (no tail), signed by
+    FillInput with a standard FORKID type, IS filled and is accepted.  Instead of "FillInput returned" the
+    hypotheses are: the digest exists and the key signs it.  Still assumed about the envelope: its body
+    [ord_body ct data] parses as push-only operations within the element size limit *)
+Theorem C04_inscription_input_signed_and_accepted : forall (orc : sig_oracle) (s : signer) (t : tx) (idx : N) (inp : input)
+    (flags ht : N) (ct data lock : bytes) (bops : list pop) (h sig : bytes),
+  let ht' := default_type ht in
+  let pk := sg_pub s in
+  let body := SignAcceptAll.ord_body ct data in
+  let c := mkCtx (normalise_flags flags) true (Z.of_N (tx_lock t)) (Z.of_N (tx_version t)) (Z.of_N (in_seq inp)) false in
+  wf_tx t -> idx + 1 < two32 -> In ht' [0x41; 0x42; 0x43; 0xc1; 0xc2; 0xc3] ->
+  nthN (tx_ins t) idx = Some inp ->
+  Inscription.inscribe_script (p2pkh_lock (hash160 pk)) ct data None = Some lock -> in_script inp = Some lock ->
+  signer_ok s ->
+  fst (calc_input_signature_hash t idx ht') = SOk h -> sg_sign s h = Some sig ->
+  has_flag c F_FORKID = true ->
+  (has_flag c F_CLEANSTACK = true -> has_flag c F_BIP16 = true) ->
+  (lenZ lock <= max_script_size c)%Z ->
+  parse_ops (length body) false body 1 = Some bops -> is_push_only bops = true ->
+  Forall (fun p => (lenZ (p_data p) <= max_elem c)%Z) bops ->
+  oracle_accepts_signer orc c s h ->
+  exists t' inp', fill_input (Some s) t idx ht = SgOk t' /\ nthN (tx_ins t') idx = Some inp' /\
+    in_script inp' = Some lock /\ in_sats inp' = in_sats inp /\ in_seq inp' = in_seq inp /\
+    fst (engine_execute (mk_sigops orc (engine_tx t' idx (in_unlock inp') lock (in_sats inp')) idx)
+           (mkExecInput (in_unlock inp') lock flags true true (Z.of_N (tx_lock t')) (Z.of_N (tx_version t'))
+                        (Z.of_N (in_seq inp')))) = VOk.
+Proof. exact SignAcceptAll.inscription_input_signed_and_accepted. Qed.
+Print Assumptions C04_inscription_input_signed_and_accepted.
 
 (** non-vacuity of the signing path: direct evaluation of the model.  A key whose signatures are the fixed DER
     string [ex_sig]: FillInput with type 0 on the instance of [C04_p2pkh_hypotheses_satisfiable] stores the 0x41
